@@ -396,3 +396,26 @@ func evRHSObj(h *Interp, e *Event) types.Object {
 	}
 	return h.objOf(e.RHS)
 }
+
+// chanOnPath: the channel object an expression denotes at event index upto of trace t: a field / variable, or —
+// for a local that was assigned a channel earlier on the path — what it was last assigned.
+func chanOnPath(h *Interp, t *Trace, upto int, e ast.Expr) types.Object {
+	o := h.objOf(e)
+	for depth := 0; depth < 4 && o != nil; depth++ {
+		v, ok := o.(*types.Var)
+		if !ok || v.IsField() {
+			return o
+		}
+		var last types.Object
+		for _, p := range t.Ev[:upto] {
+			if p.Kind == EvAssign && p.LObj == o && p.RHS != nil {
+				last = evRHSObj(h, p)
+			}
+		}
+		if last == nil || last == o {
+			return o
+		}
+		o = last
+	}
+	return o
+}
